@@ -320,6 +320,19 @@ func genC10(r *Run) {
 			}
 		}
 	}
+	// datagrams for an id whose call is over, whatever way it ended
+	for _, v6 := range []bool{false, true} {
+		for ending := 0; ending < 4; ending++ {
+			b, reuse := deadIDScenario(v6, ending)
+			evals++
+			what := fmt.Sprintf("v6=%v: the call with id 7 ended by %s; 7 late datagrams with id 7, then the answer for id 8, then id 7 is used again", v6, []string{"a write error", "its timeout", "its context", "its answer"}[ending])
+			if b.status != 1 || b.payload != 99 {
+				r.Fail("c10-late-datagrams-for-a-finished-call", what, fmt.Sprintf("the waiting call (id 8) ended with status %d payload %d instead of its answer 99", b.status, b.payload))
+			} else if reuse.status != 1 || reuse.payload != 77 {
+				r.Fail("c10-id-not-released", what, fmt.Sprintf("a new call with id 7 ended with status %d payload %d instead of its answer 77", reuse.status, reuse.payload))
+			}
+		}
+	}
 	// answers that arrive before the transmitting call has returned from WriteTo
 	for _, v6 := range []bool{false, true} {
 		for k := 0; k < r.N(5, 100); k++ {
@@ -753,6 +766,93 @@ func instantServer(v6 bool, n int) (outs []callOutcome) {
 			}
 		}
 		wg.Wait()
+		closer()
+		synctest.Wait()
+	})
+	return
+}
+
+// deadIDScenario: call A (id 7) has ended - by a failed write, by its timeout, by its context, or with its answer.
+// Seven more datagrams with id 7 then arrive while call B (id 8) waits, then B's answer.  Nobody waits for id 7: the
+// seven are dropped, B receives its answer, and id 7 can be used again.
+func deadIDScenario(v6 bool, ending int) (b callOutcome, reuse callOutcome) {
+	bubbleNote = fmt.Sprintf("v6=%v: call with id 7 ended (%s); 7 late datagrams with id 7 arrive while a call with id 8 waits", v6, []string{"write error", "timeout", "context cancelled", "answered"}[ending])
+	runBubble(func(t *testing.T) {
+		conn := newLabConn()
+		mk := func(x, p byte) []byte {
+			if v6 {
+				m := &dhcpv6.Message{MessageType: dhcpv6.MessageTypeReply, TransactionID: dhcpv6.TransactionID{0, 0, x}}
+				m.AddOption(&dhcpv6.OptionGeneric{OptionCode: 4000, OptionData: []byte{p}})
+				return m.ToBytes()
+			}
+			m, _ := dhcpv4.New(dhcpv4.WithTransactionID(dhcpv4.TransactionID{0, 0, 0, x}), dhcpv4.WithHwAddr(labHW),
+				dhcpv4.WithMessageType(dhcpv4.MessageTypeOffer), dhcpv4.WithGeneric(dhcpv4.GenericOptionCode(224), []byte{p}))
+			m.OpCode = dhcpv4.OpcodeBootReply
+			return m.ToBytes()
+		}
+		var call func(ctx context.Context, x byte) callOutcome
+		var closer func()
+		if v6 {
+			c, err := nclient6.NewWithConn(conn, labHW, nclient6.WithTimeout(100*time.Millisecond), nclient6.WithRetry(1))
+			if err != nil {
+				t.Fatal(err)
+			}
+			closer = func() { c.Close() }
+			call = func(ctx context.Context, x byte) callOutcome {
+				req := &dhcpv6.Message{MessageType: dhcpv6.MessageTypeSolicit, TransactionID: dhcpv6.TransactionID{0, 0, x}}
+				return classify6(c.SendAndRead(ctx, nclient6.AllDHCPRelayAgentsAndServers, req, nil))
+			}
+		} else {
+			c, err := nclient4.NewWithConn(conn, labHW, nclient4.WithTimeout(100*time.Millisecond), nclient4.WithRetry(1))
+			if err != nil {
+				t.Fatal(err)
+			}
+			closer = func() { c.Close() }
+			call = func(ctx context.Context, x byte) callOutcome {
+				req, _ := dhcpv4.NewDiscovery(labHW, dhcpv4.WithTransactionID(dhcpv4.TransactionID{0, 0, 0, x}))
+				return classify4(c.SendAndRead(ctx, &net.UDPAddr{IP: net.IPv4bcast, Port: 67}, req, nil))
+			}
+		}
+		send := func(b []byte) {
+			select {
+			case conn.in <- b:
+			case <-conn.closed:
+			}
+		}
+		push := func(b []byte) {
+			send(b)
+			synctest.Wait()
+		}
+		// call A, ending in the given way
+		switch ending {
+		case 0:
+			conn.mu.Lock()
+			conn.failWrites = 1
+			conn.mu.Unlock()
+			call(context.Background(), 7)
+		case 1:
+			call(context.Background(), 7)
+		case 2:
+			ctx, cancel := context.WithCancel(context.Background())
+			go func() { time.Sleep(30 * time.Millisecond); cancel() }()
+			call(ctx, 7)
+		case 3:
+			go func() { time.Sleep(10 * time.Millisecond); send(mk(7, 1)) }()
+			call(context.Background(), 7)
+		}
+		synctest.Wait()
+		// call B waits; late datagrams for A's id arrive; then B's answer
+		doneB := make(chan struct{})
+		go func() { defer close(doneB); b = call(context.Background(), 8) }()
+		synctest.Wait()
+		for i := 0; i < 7; i++ {
+			push(mk(7, byte(50+i)))
+		}
+		push(mk(8, 99))
+		<-doneB
+		// and id 7 is free again
+		go func() { time.Sleep(10 * time.Millisecond); send(mk(7, 77)) }()
+		reuse = call(context.Background(), 7)
 		closer()
 		synctest.Wait()
 	})
